@@ -534,8 +534,9 @@ def local_write(rep, prog, dl):
             continue
         out, path = runner.replay(sc, 'C07_localwrite')
         c = b['case']
-        if c['create_new'] and c['pre'] == 'nonempty':
-            reproduced = bool(out.get('ok')) or out.get('content') != 'old' or (out.get('kind') or '') != 'AlreadyExists'
+        if c['create_new'] and c['pre'] in ('nonempty', 'identical', 'prefix'):
+            was = {'nonempty': 'old', 'identical': 'new', 'prefix': 'ne'}[c['pre']]
+            reproduced = bool(out.get('ok')) or out.get('content') != was or (out.get('kind') or '') != 'AlreadyExists'
         else:
             reproduced = (bool(out.get('ok')) and out.get('content') != 'new') or (not out.get('ok') and not c['flaky'] and not (c['create_new'] and c['pre'] == 'empty'))
         rep.violation(key, what, path, reproduced)
